@@ -72,6 +72,11 @@ def main(replay=None):
     problems = run.prove()
     hapi = V.build_harness("h_api", "plain")
     drv = V.ocaml_driver("api")
+    def harness_run(mode, lines, timeout=3000):
+        """records of the implementation with everything that is not reproducible between two processes replaced: heap addresses
+        (objects, groups, scripts print their pointer)"""
+        rc_, out_, err_ = V.run_lines_parallel([hapi, mode], lines, timeout=timeout)
+        return rc_, [re.sub(r"0x[0-9a-fA-F]+", "0xADDR", x) for x in out_], err_
     import statics as statics_translator
     st = statics_translator.generate()
     counter_global = any(n == "__counter__" for n in st["where"])
@@ -102,7 +107,7 @@ def main(replay=None):
                 ml.append("%s\t%s\t%s\t%s" % (sw or "none", m, " ".join(p), " ".join(q)))
         # beside: only for pairs that cannot interfere by the footprint theorem
         il.append("beside\t%s\t%s" % (hx(render(p)), hx(render(q))))
-    rc, impl, _ = V.run_lines_parallel([hapi, "iso"], il, timeout=3000)
+    rc, impl, _ = harness_run("iso", il, timeout=3000)
     rc, model, _ = V.run_lines_parallel([drv, "iso"], ml, timeout=3000)
     evaluations, distinct, samples, dist = 0, set(), [], {"A pairs": len(casesA)}
     it, mt = iter(impl), iter(model)
@@ -170,13 +175,16 @@ def main(replay=None):
     text = {p: V.unhx(t.split("\t")[0]) for p, t in zip(progs, pt)}
     il = []
     for p, q in casesB:
-        for m in ("alone", "after", "beside", "twice"):
+        for m in ("alone", "after", "beside", "twice", "alone"):
             il.append("%s\t%s\t%s" % (m, hx(text[p]), hx(text[q])))
-    rc, implB, _ = V.run_lines_parallel([hapi, "iso"], il, timeout=3000)
+    rc, implB, _ = harness_run("iso", il, timeout=3000)
     it = iter(implB)
     dist["B pairs"] = len(casesB)
     for p, q in casesB:
-        r = {m: next(it) for m in ("alone", "after", "beside", "twice")}
+        r = {m: next(it) for m in ("alone", "after", "beside", "twice", "alone2")}
+        if r.pop("alone2") != r["alone"]:
+            dist["B dropped: alone-record not reproducible"] = dist.get("B dropped: alone-record not reproducible", 0) + 1
+            continue
         evaluations += 3
         distinct.add(("B", r["alone"]))
         for m in ("after", "beside", "twice"):
@@ -219,7 +227,7 @@ def main(replay=None):
                 exprs += ["%s %s" % (f[1], a) for a in ARG.get(f[2], [])]
         exprs = sorted(set(exprs))
         dist["C candidate expressions"] = len(exprs)
-        rc, disc, _ = V.run_lines_parallel([hapi, "iso"], ["alone\t%s\t%s" % (hx("diag_log typeName (%s)" % e), hx("")) for e in exprs], timeout=3000)
+        rc, disc, _ = harness_run("iso", ["alone\t%s\t%s" % (hx("diag_log typeName (%s)" % e), hx("")) for e in exprs], timeout=3000)
         EDITS_A = ["_r pushBack 99", "_r set [0, 98]", "_r append [97, 96]", "_r deleteAt 0", "reverse _r", "_r resize 1", "_r sort true"]
         EDITS_H = ['_r set ["verif", 1]', '_r deleteAt "verif2"', '_r set [0, [9]]']
         for e, d in zip(exprs, disc):
@@ -233,14 +241,17 @@ def main(replay=None):
     il = []
     for e, kind, tq in casesC:
         tp = "diag_log str (%s); diag_log str count (%s)" % (e, e)
-        for m in ("alone", "after", "twice", "beside"):
+        for m in ("alone", "after", "twice", "beside", "alone"):
             il.append("%s\t%s\t%s" % (m, hx(tp), hx(tq)))
-    rc, implC, _ = V.run_lines_parallel([hapi, "iso"], il, timeout=3000)
+    rc, implC, _ = harness_run("iso", il, timeout=3000)
     it = iter(implC)
     dist["C container-returning expressions x edits"] = len(casesC)
     flagged = set()
     for e, kind, tq in casesC:
-        r = {m: next(it) for m in ("alone", "after", "twice", "beside")}
+        r = {m: next(it) for m in ("alone", "after", "twice", "beside", "alone2")}
+        if r.pop("alone2") != r["alone"]:
+            dist["C dropped: alone-record not reproducible"] = dist.get("C dropped: alone-record not reproducible", 0) + 1
+            continue
         evaluations += 3
         distinct.add(("C", e))
         if e in flagged:
@@ -252,6 +263,73 @@ def main(replay=None):
                 run.violation("`%s` hands out %s that is shared by the VM instances of the process: after one instance edited it in place, "
                               "a fresh instance gets something else from the same operator (%s)" % (
                                   e, {"ARRAY": "an array", "HASHMAP": "a hashmap"}[kind], {"after": "Q ran before it", "beside": "Q ran beside it on another thread", "twice": "P itself ran before it"}[m]), rep)
+                break
+
+    # ------------------------------------------------------------- family O: instances with DIFFERENT operator sets
+    # sqfvm_create_instance registers every operator, sqfvm_create_instance_basic the non-arma sets, sqfvm_create_instance_empty none:
+    # a spelling that is an operator in one instance is a plain identifier in another.  What one instance registered (or lexed)
+    # must not decide how another instance reads the same word.  Names = registry(full) minus registry(basic), taken from the dumps.
+    import subprocess as _sp
+
+    def dump(which):
+        out = {}
+        for l in _sp.run([hapi, "ops", which], stdout=_sp.PIPE, timeout=120).stdout.decode("latin-1").split("\n"):
+            f = l.split("\t")
+            if len(f) >= 2 and f[0] in ("N", "U", "B"):
+                out.setdefault(f[1], set()).add(f[0])
+        return out
+    casesO = []      # (word, kind, P, Q, set of P's instance, set of Q's instance)
+    if replay:
+        r = json.load(open(replay))["replay"]
+        if r.get("family") == "O":
+            casesO = [(r["word"], r["kind"], r["text_p"], r["text_q"], r["set_p"], r["set_q"])]
+    else:
+        import C09 as _sw
+        cdir = os.path.join(V.VERIF, "corpus", PID)
+        if os.path.isdir(cdir):
+            for fn in sorted(os.listdir(cdir)):
+                r = json.load(open(os.path.join(cdir, fn)))
+                if r.get("family") == "O":
+                    casesO.append((r["word"], r["kind"], r["text_p"], r["text_q"], r["set_p"], r["set_q"]))
+        full, basic = dump("full"), dump("basic")
+        words = sorted(w for w in full if w not in basic and re.match(r"^[a-z_][a-z0-9_]*$", w) and w not in _sw.SWEEP_EXCLUDED
+                       and w not in ("true", "false", "private", "nil") and not re.search(r"time|date|tick|random", w))
+        dist["O words that are operators only in a full instance"] = len(words)
+        pick = [w for w in ("player", "allunits", "vehicle", "setpos") if w in words]
+        rest = [w for w in words if w not in pick]
+        rng.shuffle(rest)
+        pick += rest[:(400 if thorough else 45)]
+        for w in pick:
+            kind = "N" if "N" in full[w] else "U" if "U" in full[w] else "B"
+            use = {"N": "private _q = %s;" % w, "U": "private _q = (%s 0);" % w, "B": "private _q = (0 %s 0);" % w}[kind]
+            # the word is a variable in P's instance, an operator in Q's
+            casesO.append((w, kind, '%s = "Bob"; diag_log ("%s is " + %s);' % (w, w, w), use, "basic", "full"))
+            casesO.append((w, kind, "%s = 7; %s" % (w, w), use, "empty", "full"))
+            # the word is an operator in P's instance, a variable in Q's
+            casesO.append((w, kind, use + ' diag_log "after";', "%s = 1; diag_log str %s;" % (w, w), "full", "basic"))
+    il = []
+    for w, kind, tp, tq, sp, sq in casesO:
+        for m in ("alone", "after", "twice", "beside", "alone"):
+            il.append("%s\t%s\t%s\t%s,%s" % (m, hx(tp), hx(tq), sp, sq))
+    rc, implO, _ = harness_run("iso", il, timeout=3000)
+    it = iter(implO)
+    dist["O cases (word x direction)"] = len(casesO)
+    flaggedO = set()
+    for w, kind, tp, tq, sp, sq in casesO:
+        r = {m: next(it) for m in ("alone", "after", "twice", "beside", "alone2")}
+        if r.pop("alone2") != r["alone"]:
+            dist["O dropped: alone-record not reproducible"] = dist.get("O dropped: alone-record not reproducible", 0) + 1
+            continue
+        evaluations += 3
+        distinct.add(("O", w, sp))
+        for m in ("after", "twice", "beside"):
+            if r[m] != r["alone"] and (sp, sq, m) not in flaggedO:
+                flaggedO.add((sp, sq, m))
+                rep = {"family": "O", "word": w, "kind": kind, "text_p": tp, "text_q": tq, "set_p": sp, "set_q": sq, "impl": r, "mode": m}
+                run.violation("output(P in a fresh %s instance) differs when Q ran %s in a %s instance of the same process: `%s` is %s in one operator set and "
+                              "a plain identifier in the other, and what one instance registered / read decides how the other reads the word" % (
+                                  sp, {"after": "before it", "beside": "beside it on another thread", "twice": "(P itself) before it"}[m], sq, w,
+                                  {"N": "a nular operator", "U": "a unary operator", "B": "a binary operator"}[kind]), rep)
                 break
 
     # ------------------------------------------------------------- family R: re-entrancy through the log callback (one thread)
@@ -288,7 +366,7 @@ def main(replay=None):
         sw, _, _ = sweep.sweep_cases(rng, registry, 3 if thorough else 1)
         cands = [(c[1], c[4]) for c in sw if not nodiag_name.search(c[1])] + [("builder:" + t.split(" ")[0 if t[0].isalpha() else -2], t) for t in STRING_BUILDERS]
         rstats["candidates_run_alone"] = len(cands)
-        rc, al, _ = V.run_lines_parallel([hapi, "iso"], ["alone\t%s\t%s" % (hx(t), hx("")) for _, t in cands], timeout=3000)
+        rc, al, _ = harness_run("iso", ["alone\t%s\t%s" % (hx(t), hx("")) for _, t in cands], timeout=3000)
 
         def diag_points(rec):
             """indices (in order of emission) of the diagnostics of a record that are not the final value print; None if unusable"""
@@ -301,10 +379,15 @@ def main(replay=None):
                 return None          # an error-level diagnostic: the run is not the non-fatal case
             return [i for i, (l, c) in enumerate(lv) if c != "60095"]
         kept = {}
-        for (nm, t), a in zip(cands, al):
-            pts = diag_points(a)
-            if pts:
-                kept.setdefault(nm, []).append((t, a, pts))
+        usable_c = [((nm, t), a) for (nm, t), a in zip(cands, al) if diag_points(a)]
+        # a second run alone, in another process: output that is not reproducible (time, random, anything else) is no basis for a comparison
+        rc, again, _ = harness_run("iso", ["alone\t%s\t%s" % (hx(t), hx("")) for (_, t), _ in usable_c])
+        rstats["dropped: alone-record not reproducible"] = 0
+        for ((nm, t), a), a2 in zip(usable_c, again):
+            if a2 != a:
+                rstats["dropped: alone-record not reproducible"] += 1
+                continue
+            kept.setdefault(nm, []).append((t, a, diag_points(a)))
         rstats["kept (value returned, a non-error diagnostic before it)"] = sum(len(v) for v in kept.values())
         names = sorted(kept)
         allk = [(nm,) + x for nm in names for x in kept[nm][:3]]
@@ -322,11 +405,16 @@ def main(replay=None):
                     casesR.append((t, q[1], k))
     alone = {}
     texts = sorted({t for p_, q_, _ in casesR for t in (p_, q_)})
-    rc, al2, _ = V.run_lines_parallel([hapi, "iso"], ["alone\t%s\t%s" % (hx(t), hx("")) for t in texts], timeout=3000)
+    rc, al2, _ = harness_run("iso", ["alone\t%s\t%s" % (hx(t), hx("")) for t in texts], timeout=3000)
     alone = dict(zip(texts, al2))
-    rc, implR, _ = V.run_lines_parallel([hapi, "reent"], ["%s\t%s\t%d" % (hx(p_), hx(q_), k) for p_, q_, k in casesR], timeout=3000)
+    rc, al3, _ = harness_run("iso", ["alone\t%s\t%s" % (hx(t), hx("")) for t in texts])
+    unstable = {t for t, x, y in zip(texts, al2, al3) if x != y}
+    rc, implR, _ = harness_run("reent", ["%s\t%s\t%d" % (hx(p_), hx(q_), k) for p_, q_, k in casesR], timeout=3000)
     seenR = set()
     for (p_, q_, k), io in zip(casesR, implR):
+        if p_ in unstable or q_ in unstable:
+            rstats["dropped: alone-record not reproducible"] = rstats.get("dropped: alone-record not reproducible", 0) + 1
+            continue
         rstats["pairs_tried"] += 1
         evaluations += 1
         f = io.split("\t")
@@ -396,6 +484,8 @@ def main(replay=None):
                        "family B: pairs of programs from vmcommon.Gen - byte-wise comparison of the whole record (result, state, level:code, printed lines, value); "
                        "family C: every nular operator of the registry and every unary one with a simple argument of its registered type that returns an ARRAY / HASHMAP "
                        "(discovered on this run; time/random and control operators excepted): Q edits the returned container in place, P prints the operator's result, four modes; "
+                       "family O: words that are operators only in a full instance (registry(full) minus registry(basic), from the dumps of this run): P uses the word as a variable "
+                       "in a basic / empty instance while Q uses it as an operator in a full one, and the reverse, four modes; "
                        "family R (re-entrancy, one thread): candidates = the registry-wide operand sweep of checks/C09.py (one case per signature) plus string-building operators with "
                        "out-of-range / missing arguments, each run alone; those that return a value and emit a non-error diagnostic before it are paired (same operator with "
                        "other operands, another operator): instance B runs Q inside the log callback of instance A at A's k-th diagnostic of P; A's record must equal P alone, "
